@@ -504,6 +504,56 @@ fn c12_accept_keeps_arrival_order_around_a_connector_that_gave_up() {
 }
 }
 
+// @verif id=C12 tier=quick role=accept_order timeout=900 desc=connector-gave-up-before-a-later-syn-arrives
+// The same queue, but the first connector gives up BEFORE one more request arrives: whatever the SYN
+// path does with the dead entry (nothing, or reclaiming its slot - seed C12-5 did so with
+// `swap_remove_back`), the live requests are still accepted in arrival order.
+crate::verif_proof! { unwind = 8;
+fn c12_a_late_syn_does_not_reorder_the_requests_behind_a_connector_that_gave_up() {
+    let mut tcp = Tcp::new(5);
+    let addr = SocketAddr::new(IpAddr::V4(Ipv4Addr::UNSPECIFIED), 80);
+    let l = tcp.bind(addr);
+    std::mem::forget(l);
+    let dst = SocketAddr::new(HOST_IP, 80);
+    let (s1, rx1) = syn();
+    let (s2, rx2) = syn();
+    let (s3, rx3) = syn();
+    let (s4, rx4) = syn();
+    let src = [SocketAddr::new(PEER_IP, 1001), SocketAddr::new(OTHER_IP, 1002), SocketAddr::new(PEER_IP, 1003), SocketAddr::new(OTHER_IP, 1004)];
+    let r = tcp.receive_from_network(src[0], dst, Segment::Syn(s1));
+    std::mem::forget(r);
+    let r = tcp.receive_from_network(src[1], dst, Segment::Syn(s2));
+    std::mem::forget(r);
+    let r = tcp.receive_from_network(src[2], dst, Segment::Syn(s3));
+    std::mem::forget(r);
+    drop(rx1); // the first connector gives up ...
+    let r = tcp.receive_from_network(src[3], dst, Segment::Syn(s4)); // ... and then one more request arrives
+    std::mem::forget(r);
+    let mut live: [Option<SocketAddr>; 4] = [None, None, None, None];
+    let mut n = 0;
+    let mut i = 0;
+    while i < 5 {
+        match tcp.accept(addr) {
+            Some((syn, from)) => {
+                if syn.ack.send(()).is_ok() {
+                    live[n] = Some(from);
+                    n += 1;
+                }
+            }
+            None => break,
+        }
+        i += 1;
+    }
+    assert!(n == 3, "the three waiting connectors are accepted, the one that gave up is not");
+    assert!(live[0] == Some(src[1]) && live[1] == Some(src[2]) && live[2] == Some(src[3]), "in arrival order");
+    kani::cover!(n == 3, "three live requests, one of them queued after the first connector gave up");
+    std::mem::forget(tcp);
+    std::mem::forget(rx2);
+    std::mem::forget(rx3);
+    std::mem::forget(rx4);
+}
+}
+
 // C12/C15: the live-stream table. A stream counts as established until both halves are closed (or it
 // is reset); afterwards its local port is assignable again; binding a port in use fails with
 // AddrInUse per protocol, UDP and TCP listener spaces are independent.
